@@ -651,7 +651,7 @@ def emit_item(b, out, meta):
     text = re.sub(r'(?m)^\s*#\[[^\]]*\]\s*\n', '', text)      # derive-helper attributes on variants/fields (e.g. #[from(ignore)])
     if b.d['derive']:
         out.append('#[derive(%s)]' % b.d['derive'])
-    if not text.lstrip().startswith('pub'):
+    if kind != 'macro_rules' and not text.lstrip().startswith('pub'):
         text = 'pub ' + text.lstrip()     # visibility only: spec functions over the type must be able to name it
     out.extend(text.split('\n'))
     if kind == 'enum' and any('IsVariant' in a for a in it['attrs']) and not b.d.get('noisvariant'):
